@@ -227,6 +227,9 @@ func (s *sgen) runCase(id int) bool {
 			var mut *mutation
 			if s.p.pHold > 0 && s.r.chance(s.p.pHold) {
 				fault = "holdsnap"
+				if s.r.intn(2) == 0 {
+					fault = "holdbg"
+				}
 				s.held++
 			} else if s.p.pNoSnap > 0 && s.r.chance(s.p.pNoSnap) {
 				fault = "nosnap"
